@@ -874,6 +874,11 @@ pub struct Numbers {
     pub d: f32,
     pub e: u128,
     pub f: f64,
+    /// simple-type position (attribute) has its own number parser
+    #[serde(rename = "@g")]
+    pub g: u64,
+    #[serde(rename = "@h")]
+    pub h: Vec<usize>,
 }
 impl Fam for Numbers {
     const NAME: &'static str = "Numbers";
@@ -883,7 +888,7 @@ impl Fam for Numbers {
         for (a, b) in [(i64::MIN, u64::MAX), (0, 0), (-1, 1)] {
             for (c, d) in [(i8::MIN, 0.5f32), (i8::MAX, -3.25), (0, 1e10), (-1, f32::INFINITY), (1, f32::MIN)] {
                 for (e, f) in [(u128::MAX, f64::MIN_POSITIVE), (0, -0.0), (7, 123456.789), (1 << 64, f64::NEG_INFINITY), (u64::MAX as u128, f64::MAX)] {
-                    v.push(Numbers { a, b, c, d, e, f });
+                    v.push(Numbers { a, b, c, d, e, f, g: if c == 0 { 1 << 63 } else { u64::MAX - (e as u64 & 1) }, h: if c < 0 { vec![] } else { vec![usize::MAX, 0, 1 << 63] } });
                 }
             }
         }
